@@ -80,6 +80,9 @@ impl MetadataClient for SimMetadata {
     async fn complete_compaction(&self, source_chunks: &[String], target_chunk: &str) -> Result<()> {
         gated!(self, "complete_compaction", target_chunk, self.inner.complete_compaction(source_chunks, target_chunk))
     }
+    async fn publish_compaction(&self, source_chunks: &[String], target: &ChunkMetadata) -> Result<()> {
+        gated!(self, "publish_compaction", &target.path, self.inner.publish_compaction(source_chunks, target))
+    }
     async fn update_compaction_status(&self, job_id: &str, status: CompactionStatus) -> Result<()> {
         gated!(self, "update_compaction_status", "", self.inner.update_compaction_status(job_id, status))
     }
